@@ -67,7 +67,7 @@ pending = {
  "C05": "check not built yet; planned at proof level",
  "C09": "check not built yet; only the socket/deadline/lock typestate clauses are in reach",
  "C10": "check not built yet; only per-datagram clauses are in reach",
- "C11": "check not built yet; planned at proof level",
+ "C11": "not built: broadcast() is generic over `any` and only analysable inlined into GetDevices; its filter-map loop over []any then needs a loop invariant inside an inlined callee, which the engine does not support yet (DESIGN.md section 4 C11). In reach of the technique in principle; no check is claimed",
  "C13": "check not built yet; planned at proof level",
  "C14": "check not built yet; leaf types only are in reach",
  "C15": "check not built yet; planned at proof level",
